@@ -49,6 +49,7 @@ type Contract struct {
 	Witness  map[string]string
 	Unordered map[int]string // map-range ordinal -> the only entry point from which the function may be reached
 	UsesOnly []UsesOnly
+	Between  []BetweenClause
 	Sites    []SiteClause
 	Bound    bool
 	Terminates bool
@@ -74,7 +75,7 @@ type SpecFunc struct {
 	Opaque bool
 }
 
-var kwRe = regexp.MustCompile(`^(func|spec|readers|preserved|internal|inline|eosexit|requires|ensures|decreases|loop|safe|modular|terminates|witness|witnessgo|unordered|usesonly|mapwrite|callsite|nobody|sitesonly|end)\b`)
+var kwRe = regexp.MustCompile(`^(func|spec|readers|between|preserved|internal|inline|eosexit|requires|ensures|decreases|loop|safe|modular|terminates|witness|witnessgo|unordered|usesonly|mapwrite|callsite|nobody|sitesonly|end)\b`)
 
 func (e *Engine) loadContracts() error {
 	e.contracts = map[string]*Contract{}
@@ -259,6 +260,11 @@ func (e *Engine) parseContractFile(file, pkgPath, data string) error {
 					return fmt.Errorf("%s:%d: %v in %q", file, l.line, err, text)
 				}
 				cur.Sites = append(cur.Sites, SiteClause{Kind: kw, Target: fields[1], Expr: ex, Tags: tags, Text: text})
+			}
+		case "between":
+			// between[tags] <A> <B> [allow f,g] [state pkg,pkg]: see between.go
+			if bc, ok := parseBetween(fields, tags, rest); ok {
+				cur.Between = append(cur.Between, bc)
 			}
 		case "usesonly":
 			// usesonly[tags] <param | result-of:<callee>> <allowed callee>[,<allowed callee>...]
